@@ -1,13 +1,5 @@
 package main
 
-import (
-	"fmt"
-	"go/ast"
-	"go/token"
-	"go/types"
-	"strings"
-)
-
 func init() {
 	register("C12", checkC12, "what the helper does with its arguments; helpers whose parameter types are generic or otherwise outside reflect's assignability rules")
 }
@@ -29,917 +21,4 @@ func checkC12(r *Run) {
 	checkC12SSA(r)
 	r.Rule("R7", "a non-nil trailing error result fails the render: the call site inspects the last result for an error and returns before the first result is used (also in the chained-call branch)", 1)
 	reflectResultRuleAs(r, "R7")
-}
-
-// argsAliases: node.Arguments and locals assigned once from it.
-func c12ArgAliases(info *types.Info, f *FuncInfo) (isArgs func(ast.Expr) bool, isLenArgs func(ast.Expr) bool) {
-	node := f.Obj.Type().(*types.Signature).Params().At(0)
-	alias := map[types.Object]bool{}
-	lenAlias := map[types.Object]bool{}
-	direct := func(e ast.Expr) bool {
-		bx, fld := fieldOf(info, e)
-		return fld != nil && fld.Name() == "Arguments" && objOf(info, bx) == node
-	}
-	isArgs = func(e ast.Expr) bool {
-		if direct(e) {
-			return true
-		}
-		o := objOf(info, e)
-		return o != nil && alias[o]
-	}
-	isLenArgs = func(e ast.Expr) bool {
-		if c, ok := unparen(e).(*ast.CallExpr); ok && builtinName(info, c) == "len" && isArgs(c.Args[0]) {
-			return true
-		}
-		o := objOf(info, e)
-		return o != nil && lenAlias[o]
-	}
-	for round := 0; round < 2; round++ {
-		inspectBody(f.Decl.Body, true, func(n ast.Node) bool {
-			as, ok := n.(*ast.AssignStmt)
-			if !ok || len(as.Lhs) != 1 || len(as.Rhs) != 1 || as.Tok != token.DEFINE {
-				return true
-			}
-			if o := objOf(info, as.Lhs[0]); o != nil {
-				if direct(as.Rhs[0]) || isArgs(as.Rhs[0]) {
-					alias[o] = true
-				}
-				if isLenArgs(as.Rhs[0]) {
-					lenAlias[o] = true
-				}
-			}
-			return true
-		})
-	}
-	return
-}
-
-func c12Evaluations(r *Run, f *FuncInfo, evalExpr *FuncInfo) {
-	w := r.W
-	info := f.Pkg.TypesInfo
-	isArgs, isLenArgs := c12ArgAliases(info, f)
-	type evalSite struct {
-		call  *ast.CallExpr
-		kind  string // range | counted
-		loop  ast.Node
-		index types.Object
-	}
-	var sites []evalSite
-	for _, c := range callsIn(f.Decl.Body, true) {
-		if calleeOf(info, c) != evalExpr.Obj || len(c.Args) != 1 {
-			continue
-		}
-		a := unparen(c.Args[0])
-		// element of the argument list?
-		var elemIdx ast.Expr
-		isElem := false
-		if ix, ok := a.(*ast.IndexExpr); ok && isArgs(ix.X) {
-			isElem, elemIdx = true, ix.Index
-		}
-		var rs *ast.RangeStmt
-		if o := objOf(info, a); o != nil {
-			for p := w.Parent(c); p != nil; p = w.Parent(p) {
-				if rr, ok := p.(*ast.RangeStmt); ok && rr.Value != nil && objOf(info, rr.Value) == o && isArgs(rr.X) {
-					rs, isElem = rr, true
-				}
-			}
-		}
-		if !isElem {
-			continue
-		}
-		con := "evaluation " + short(w.Fset, c)
-		if rs != nil {
-			sites = append(sites, evalSite{c, "range", rs, nil})
-			r.Ok("R1", f.Name(), con, w.Pos(c.Pos()), "range over the argument list: each position once, ascending")
-			continue
-		}
-		iv := objOf(info, elemIdx)
-		var loop *ast.ForStmt
-		for p := w.Parent(c); p != nil; p = w.Parent(p) {
-			if l, ok := p.(*ast.ForStmt); ok {
-				loop = l
-				break
-			}
-		}
-		if iv == nil || loop == nil {
-			r.Bad("R1", f.Name(), con, w.Pos(c.Pos()), "an argument is evaluated outside a loop over the argument positions (it may be evaluated twice, or out of order)")
-			continue
-		}
-		inc, ok := loop.Post.(*ast.IncDecStmt)
-		if !ok || inc.Tok != token.INC || objOf(info, inc.X) != iv {
-			r.Bad("R1", f.Name(), con, w.Pos(c.Pos()), "the loop index does not ascend by one")
-			continue
-		}
-		written := false
-		inspectBody(loop.Body, true, func(n ast.Node) bool {
-			switch s := n.(type) {
-			case *ast.AssignStmt:
-				for _, l := range s.Lhs {
-					if objOf(info, l) == iv {
-						written = true
-					}
-				}
-			case *ast.IncDecStmt:
-				if objOf(info, s.X) == iv {
-					written = true
-				}
-			}
-			return true
-		})
-		if written {
-			r.Bad("R1", f.Name(), con, w.Pos(c.Pos()), "the loop index is modified inside the loop")
-			continue
-		}
-		sites = append(sites, evalSite{c, "counted", loop, iv})
-		r.Ok("R1", f.Name(), con, w.Pos(c.Pos()), "counted loop, index +1 per iteration")
-	}
-	// the counted loops form a chain over one shared index: [0, N-1) then [N-1, len)
-	var counted []evalSite
-	for _, s := range sites {
-		if s.kind == "counted" {
-			counted = append(counted, s)
-		}
-	}
-	if len(counted) == 2 && counted[0].index == counted[1].index {
-		l1, l2 := counted[0].loop.(*ast.ForStmt), counted[1].loop.(*ast.ForStmt)
-		if l1.Pos() > l2.Pos() {
-			l1, l2 = l2, l1
-		}
-		startsAtZero := false
-		if as, ok := l1.Init.(*ast.AssignStmt); ok && len(as.Rhs) == 1 {
-			if v, ok := constInt(info, as.Rhs[0]); ok && v == 0 && objOf(info, as.Lhs[0]) == counted[0].index {
-				startsAtZero = true
-			}
-		}
-		continues := l2.Init == nil
-		coversAll := false
-		if be, ok := unparen(l2.Cond).(*ast.BinaryExpr); ok && be.Op == token.LSS && objOf(info, be.X) == counted[0].index && isLenArgs(be.Y) {
-			coversAll = true
-		}
-		// nothing between the loops writes the index
-		between := false
-		inspectBody(f.Decl.Body, true, func(n ast.Node) bool {
-			if as, ok := n.(*ast.AssignStmt); ok && as.Pos() > l1.End() && as.End() < l2.Pos() {
-				for _, l := range as.Lhs {
-					if objOf(info, l) == counted[0].index {
-						between = true
-					}
-				}
-			}
-			return true
-		})
-		if startsAtZero && continues && coversAll && !between {
-			r.Ok("R1", f.Name(), "variadic positions [0,N-1) then [N-1,len) on one shared counter", w.Pos(l1.Pos()), "disjoint, ascending, covering")
-		} else {
-			r.Bad("R1", f.Name(), "variadic position ranges", w.Pos(l1.Pos()), "the fixed and the variadic part must be walked by one counter: from 0, continued without reset, up to the number of supplied arguments")
-		}
-	} else if len(counted) != 0 {
-		r.Bad("R1", f.Name(), fmt.Sprintf("%d counted evaluation loops", len(counted)), w.Pos(f.Decl.Pos()), "expected the two loops of the variadic branch sharing one counter")
-	}
-	nRange := 0
-	for _, s := range sites {
-		if s.kind == "range" {
-			nRange++
-		}
-	}
-	if nRange != 1 {
-		r.Bad("R1", f.Name(), fmt.Sprintf("%d range evaluation loops", nRange), w.Pos(f.Decl.Pos()), "expected exactly one range over the argument list in the fixed-arity branch")
-	}
-}
-
-// appendsToArgs finds `X = append(X, v)` statements where X is the
-// []reflect.Value argument vector, in f and its closures.
-func c12ArgVector(info *types.Info, f *FuncInfo) types.Object {
-	var vec types.Object
-	ast.Inspect(f.Decl.Body, func(n ast.Node) bool {
-		as, ok := n.(*ast.AssignStmt)
-		if !ok || len(as.Lhs) != 1 || len(as.Rhs) != 1 {
-			return true
-		}
-		o := objOf(info, as.Lhs[0])
-		if o == nil {
-			return true
-		}
-		if sl, ok := o.Type().(*types.Slice); ok && namedIs(sl.Elem(), "reflect", "Value") && vec == nil {
-			vec = o
-		}
-		return true
-	})
-	return vec
-}
-
-func c12Appends(r *Run, f *FuncInfo) {
-	w := r.W
-	info := f.Pkg.TypesInfo
-	vec := c12ArgVector(info, f)
-	if vec == nil {
-		r.Lost("R2", "argument vector ([]reflect.Value) of the call evaluator")
-		return
-	}
-	node := f.Obj.Type().(*types.Signature).Params().At(0)
-	ast.Inspect(f.Decl.Body, func(n ast.Node) bool {
-		as, ok := n.(*ast.AssignStmt)
-		if !ok || len(as.Lhs) != 1 || len(as.Rhs) != 1 || objOf(info, as.Lhs[0]) != vec {
-			return true
-		}
-		c, ok := unparen(as.Rhs[0]).(*ast.CallExpr)
-		if !ok || builtinName(info, c) != "append" {
-			return true
-		}
-		if objOf(info, c.Args[0]) != vec {
-			r.Bad("R2", f.Name(), "argument vector rebuilt "+short(w.Fset, as), w.Pos(as.Pos()), "the argument vector must only grow by appending")
-			return true
-		}
-		for _, v := range c.Args[1:] {
-			con := "append " + short(w.Fset, v)
-			why, expected := c12AppendGuard(w, info, f, as, v)
-			if why == "" {
-				r.Bad("R2", f.Name(), con, w.Pos(as.Pos()),
-					"a value is put into the argument vector without being shown assignable to the parameter type: reflect.Value.Call panics on a mismatch instead of the evaluator returning an error")
-				continue
-			}
-			r.Ok("R2", f.Name(), con, w.Pos(as.Pos()), why)
-			// R4: the nil site of this append
-			c12NilSite(r, f, as, v, expected)
-		}
-		return true
-	})
-	// mismatch errors name the call
-	n := 0
-	ast.Inspect(f.Decl.Body, func(nd ast.Node) bool {
-		ifs, ok := nd.(*ast.IfStmt)
-		if !ok {
-			return true
-		}
-		u, ok := unparen(ifs.Cond).(*ast.UnaryExpr)
-		if !ok || u.Op != token.NOT {
-			return true
-		}
-		cc, ok := unparen(u.X).(*ast.CallExpr)
-		if !ok || !isTypeMethod(info, cc, "AssignableTo") {
-			return true
-		}
-		if len(ifs.Body.List) != 1 {
-			return true
-		}
-		ret, ok := ifs.Body.List[0].(*ast.ReturnStmt)
-		if !ok {
-			return true
-		}
-		n++
-		names := false
-		ast.Inspect(ret, func(m ast.Node) bool {
-			if e, ok := m.(ast.Expr); ok {
-				if bx, fld := fieldOf(info, e); fld != nil && fld.Name() == "Function" && objOf(info, bx) == node {
-					names = true
-				}
-			}
-			return true
-		})
-		if names && isReturnNilErr(info, ret) {
-			r.Ok("R2", f.Name(), "mismatch error names the call", w.Pos(ret.Pos()), "error mentions node.Function")
-		} else {
-			r.Bad("R2", f.Name(), "mismatch error "+short(w.Fset, ret), w.Pos(ret.Pos()), "an argument that is not assignable must be reported by an error that names the call")
-		}
-		return true
-	})
-}
-
-func isTypeMethod(info *types.Info, c *ast.CallExpr, name string) bool {
-	cal := calleeOf(info, c)
-	if cal == nil || cal.Name() != name {
-		return false
-	}
-	sig := cal.Type().(*types.Signature)
-	return sig.Recv() != nil && namedIs(sig.Recv().Type(), "reflect", "Type")
-}
-
-// c12AppendGuard explains why the appended value is assignable to the
-// expected parameter type; it returns "" if no accepted justification is found,
-// and the expression denoting the expected type when there is one.
-func c12AppendGuard(w *World, info *types.Info, f *FuncInfo, as *ast.AssignStmt, v ast.Expr) (string, ast.Expr) {
-	v = unparen(v)
-	list := parentBlock(f, as)
-	var body ast.Node = f.Decl.Body
-	if fl := enclosingFuncLit(w, as); fl != nil {
-		body = fl.Body
-	}
-	// (a) an earlier statement in the same list: if !T.AssignableTo(E) { return ... } with T = v.Type()
-	for _, st := range list {
-		if st == ast.Stmt(as) {
-			break
-		}
-		ifs, ok := st.(*ast.IfStmt)
-		if !ok || len(ifs.Body.List) == 0 {
-			continue
-		}
-		if _, isRet := ifs.Body.List[len(ifs.Body.List)-1].(*ast.ReturnStmt); !isRet {
-			continue
-		}
-		u, ok := unparen(ifs.Cond).(*ast.UnaryExpr)
-		if !ok || u.Op != token.NOT {
-			continue
-		}
-		cc, ok := unparen(u.X).(*ast.CallExpr)
-		if !ok || !isTypeMethod(info, cc, "AssignableTo") || len(cc.Args) != 1 {
-			continue
-		}
-		recv := unparen(cc.Fun).(*ast.SelectorExpr).X
-		if typeOfValue(info, body, recv, v) {
-			return "dominated by 'if !" + short(w.Fset, cc) + " { return error }' on the type of the appended value", cc.Args[0]
-		}
-	}
-	// (b) inside a switch/if arm whose condition establishes it
-	var child ast.Node = as
-	for p := w.Parent(as); p != nil; child, p = p, w.Parent(p) {
-		var conds []ast.Expr
-		switch x := p.(type) {
-		case *ast.CaseClause:
-			conds = x.List
-		case *ast.IfStmt:
-			if child == ast.Node(x.Body) {
-				conds = conjuncts(x.Cond)
-			}
-		case *ast.FuncLit, *ast.FuncDecl:
-			p = nil
-		}
-		if p == nil {
-			break
-		}
-		for _, cnd := range conds {
-			for _, d := range disjuncts(cnd) {
-				cc, ok := unparen(d).(*ast.CallExpr)
-				if !ok || len(cc.Args) != 1 {
-					continue
-				}
-				recv := unparen(cc.Fun).(*ast.SelectorExpr).X
-				switch {
-				case isTypeMethod(info, cc, "AssignableTo"):
-					// hv.Type().AssignableTo(arg) -> append hv ; PtrTo(hv.Type()).AssignableTo(arg) -> append pv (New(hv.Type()))
-					if typeOfValue(info, body, recv, v) {
-						return "under '" + short(w.Fset, cc) + "'", cc.Args[0]
-					}
-					if pc, ok := unparen(recv).(*ast.CallExpr); ok && (funcIs(calleeOf(info, pc), "reflect", "PtrTo") || funcIs(calleeOf(info, pc), "reflect", "PointerTo")) {
-						if isNewOf(info, body, v, pc.Args[0]) {
-							return "pointer to the value under '" + short(w.Fset, cc) + "'", cc.Args[0]
-						}
-					}
-				case isTypeMethod(info, cc, "ConvertibleTo"):
-					// hv.Type().ConvertibleTo(arg) -> append hv.Convert(arg)
-					if conv, ok := v.(*ast.CallExpr); ok && methodIs(calleeOf(info, conv), "reflect", "Value", "Convert") && len(conv.Args) == 1 {
-						if sameObjExpr(info, conv.Args[0], cc.Args[0]) {
-							return "converted to the parameter type under '" + short(w.Fset, cc) + "'", cc.Args[0]
-						}
-					}
-					// arg.ConvertibleTo(TypeOf(map[string]interface{}{})) -> append ValueOf(map[string]interface{}{})
-					if vo, ok := v.(*ast.CallExpr); ok && funcIs(calleeOf(info, vo), "reflect", "ValueOf") && len(vo.Args) == 1 {
-						if cl, ok := unparen(vo.Args[0]).(*ast.CompositeLit); ok && len(cl.Elts) == 0 {
-							if _, unnamed := info.Types[cl].Type.(*types.Map); unnamed {
-								if to, ok := unparen(cc.Args[0]).(*ast.CallExpr); ok && funcIs(calleeOf(info, to), "reflect", "TypeOf") {
-									if tl, ok := unparen(to.Args[0]).(*ast.CompositeLit); ok && types.Identical(info.Types[tl].Type, info.Types[cl].Type) {
-										return "frozen exception: a value of the UNNAMED type map[string]interface{} is assignable to every type convertible to it (identical underlying type, one side unnamed)", recv
-									}
-								}
-							}
-						}
-					}
-				}
-			}
-		}
-	}
-	// (c) the zero value of the parameter type itself: reflect.Indirect(reflect.New(arg)) / reflect.New(arg).Elem() / reflect.Zero(arg)
-	if t := zeroOfType(info, body, v); t != nil {
-		return "zero value of the parameter type " + short(w.Fset, t), t
-	}
-	return "", nil
-}
-
-func enclosingFuncLit(w *World, n ast.Node) *ast.FuncLit {
-	for p := w.Parent(n); p != nil; p = w.Parent(p) {
-		if fl, ok := p.(*ast.FuncLit); ok {
-			return fl
-		}
-		if _, ok := p.(*ast.FuncDecl); ok {
-			return nil
-		}
-	}
-	return nil
-}
-
-// typeOfValue: t denotes v.Type() (directly or through a local assigned once from it).
-func typeOfValue(info *types.Info, body ast.Node, t ast.Expr, v ast.Expr) bool {
-	t = unparen(t)
-	if c, ok := t.(*ast.CallExpr); ok && methodIs(calleeOf(info, c), "reflect", "Value", "Type") {
-		return sameObjExpr(info, unparen(c.Fun).(*ast.SelectorExpr).X, v)
-	}
-	if o := objOf(info, t); o != nil {
-		var def ast.Expr
-		n := 0
-		ast.Inspect(body, func(nd ast.Node) bool {
-			if as, ok := nd.(*ast.AssignStmt); ok {
-				for i, l := range as.Lhs {
-					if objOf(info, l) == o && i < len(as.Rhs) {
-						n++
-						def = as.Rhs[i]
-					}
-				}
-			}
-			return true
-		})
-		if n == 1 && def != nil {
-			return typeOfValue(info, body, def, v)
-		}
-	}
-	return false
-}
-
-// isNewOf: v is a local assigned from reflect.New(T) with T the same expression as typ.
-func isNewOf(info *types.Info, body ast.Node, v ast.Expr, typ ast.Expr) bool {
-	o := objOf(info, v)
-	if o == nil {
-		return false
-	}
-	ok := false
-	ast.Inspect(body, func(nd ast.Node) bool {
-		if as, isAs := nd.(*ast.AssignStmt); isAs {
-			for i, l := range as.Lhs {
-				if objOf(info, l) == o && i < len(as.Rhs) {
-					if c, isC := unparen(as.Rhs[i]).(*ast.CallExpr); isC && funcIs(calleeOf(info, c), "reflect", "New") && sameObjExpr(info, c.Args[0], typ) {
-						ok = true
-					}
-				}
-			}
-		}
-		return true
-	})
-	return ok
-}
-
-// zeroOfType: v (or the local it names, assigned once) is the zero value of
-// type expression T; returns T.
-func zeroOfType(info *types.Info, body ast.Node, v ast.Expr) ast.Expr {
-	v = unparen(v)
-	if o := objOf(info, v); o != nil {
-		var def ast.Expr
-		n := 0
-		ast.Inspect(body, func(nd ast.Node) bool {
-			if as, ok := nd.(*ast.AssignStmt); ok {
-				for i, l := range as.Lhs {
-					if objOf(info, l) == o && i < len(as.Rhs) {
-						n++
-						def = as.Rhs[i]
-					}
-				}
-			}
-			return true
-		})
-		if n == 1 && def != nil {
-			return zeroOfType(info, body, def)
-		}
-		return nil
-	}
-	c, ok := v.(*ast.CallExpr)
-	if !ok {
-		return nil
-	}
-	cal := calleeOf(info, c)
-	switch {
-	case funcIs(cal, "reflect", "Zero") && len(c.Args) == 1:
-		return c.Args[0]
-	case funcIs(cal, "reflect", "Indirect") && len(c.Args) == 1:
-		if nc, ok := unparen(c.Args[0]).(*ast.CallExpr); ok && funcIs(calleeOf(info, nc), "reflect", "New") {
-			return nc.Args[0]
-		}
-	case methodIs(cal, "reflect", "Value", "Elem"):
-		if nc, ok := unparen(unparen(c.Fun).(*ast.SelectorExpr).X).(*ast.CallExpr); ok && funcIs(calleeOf(info, nc), "reflect", "New") {
-			return nc.Args[0]
-		}
-	}
-	return nil
-}
-
-// c12NilSite: when the appended value is a local assigned in an if/else on
-// `v != nil`, the nil arm must build the zero value of the expected type.
-func c12NilSite(r *Run, f *FuncInfo, as *ast.AssignStmt, v ast.Expr, expected ast.Expr) {
-	w := r.W
-	info := f.Pkg.TypesInfo
-	o := objOf(info, v)
-	if o == nil || expected == nil {
-		return
-	}
-	list := parentBlock(f, as)
-	for _, st := range list {
-		if st == ast.Stmt(as) {
-			break
-		}
-		ifs, ok := st.(*ast.IfStmt)
-		if !ok || ifs.Else == nil {
-			continue
-		}
-		be, ok := unparen(ifs.Cond).(*ast.BinaryExpr)
-		if !ok || !(be.Op == token.NEQ || be.Op == token.EQL) || !isNilIdent(info, be.Y) {
-			continue
-		}
-		nilArm := ifs.Else
-		if be.Op == token.EQL {
-			nilArm = ifs.Body
-		}
-		var rhs ast.Expr
-		ast.Inspect(nilArm, func(n ast.Node) bool {
-			if a2, ok := n.(*ast.AssignStmt); ok && len(a2.Lhs) == 1 && len(a2.Rhs) == 1 && objOf(info, a2.Lhs[0]) == o {
-				rhs = a2.Rhs[0]
-			}
-			return true
-		})
-		if rhs == nil {
-			continue
-		}
-		con := "nil argument -> " + short(w.Fset, rhs)
-		t := zeroOfType(info, nilArm, rhs)
-		switch {
-		case t == nil:
-			r.Bad("R4", f.Name(), con, w.Pos(rhs.Pos()), "a nil argument must become the zero VALUE of the expected type: reflect.New(T).Elem() or reflect.Zero(T) (reflect.New(T) alone is a pointer to T)")
-		case !sameObjExpr(info, t, expected):
-			r.Bad("R4", f.Name(), con, w.Pos(rhs.Pos()), "the zero value is built from '"+short(w.Fset, t)+"' but the parameter type checked at this site is '"+short(w.Fset, expected)+"'")
-		default:
-			r.Ok("R4", f.Name(), con, w.Pos(rhs.Pos()), "zero value of the type the assignability test uses")
-		}
-	}
-}
-
-func c12Arity(r *Run, f *FuncInfo) {
-	w := r.W
-	info := f.Pkg.TypesInfo
-	_, isLenArgs := c12ArgAliases(info, f)
-	vec := c12ArgVector(info, f)
-	// the reflect Call
-	var call *ast.CallExpr
-	for _, c := range callsIn(f.Decl.Body, true) {
-		if methodIs(calleeOf(info, c), "reflect", "Value", "Call") {
-			call = c
-		}
-	}
-	if call == nil {
-		r.Lost("R3", "reflect.Value.Call in the call evaluator")
-		return
-	}
-	// numIn: local assigned from X.NumIn()
-	var numIn types.Object
-	inspectBody(f.Decl.Body, true, func(n ast.Node) bool {
-		if as, ok := n.(*ast.AssignStmt); ok && len(as.Lhs) == 1 && len(as.Rhs) == 1 {
-			if c, ok := unparen(as.Rhs[0]).(*ast.CallExpr); ok && isTypeMethod(info, c, "NumIn") {
-				numIn = objOf(info, as.Lhs[0])
-			}
-		}
-		return true
-	})
-	isNumIn := func(e ast.Expr) bool {
-		if o := objOf(info, e); o != nil && o == numIn {
-			return true
-		}
-		c, ok := unparen(e).(*ast.CallExpr)
-		return ok && isTypeMethod(info, c, "NumIn")
-	}
-	const (
-		gKind  = 1 << iota // Kind() != Func -> return
-		gNil               // IsNil() -> return
-		gArity             // too many (fixed) or too few (variadic)
-		gPostGT
-		gPostLT
-		gVariadic // on the variadic side of the branch
-	)
-	returnsErr := func(ifs *ast.IfStmt) bool {
-		return len(ifs.Body.List) > 0 && isReturnNilErr(info, ifs.Body.List[len(ifs.Body.List)-1])
-	}
-	classify := func(n ast.Node) int {
-		// go/cfg puts the condition expression of an if into the block; find its IfStmt
-		e, ok := n.(ast.Expr)
-		if !ok {
-			return 0
-		}
-		ifs, ok := w.Parent(e).(*ast.IfStmt)
-		if !ok || ifs.Cond != e || !returnsErr(ifs) {
-			return 0
-		}
-		switch x := unparen(e).(type) {
-		case *ast.BinaryExpr:
-			// rt.Kind() != reflect.Func
-			if c, ok := unparen(x.X).(*ast.CallExpr); ok && isTypeMethod(info, c, "Kind") && x.Op == token.NEQ {
-				if v, ok := constInt(info, x.Y); ok && v == 19 {
-					return gKind
-				}
-			}
-			// len(node.Arguments) > NumIn
-			if x.Op == token.GTR && isLenArgs(x.X) && isNumIn(x.Y) {
-				return gArity
-			}
-			// nodeArgsLen < NumIn-1
-			if x.Op == token.LSS && isLenArgs(x.X) {
-				if sub, ok := unparen(x.Y).(*ast.BinaryExpr); ok && sub.Op == token.SUB && isNumIn(sub.X) {
-					if v, ok := constInt(info, sub.Y); ok && v == 1 {
-						return gArity | gVariadic
-					}
-				}
-			}
-			// len(args) > NumIn / len(args) < NumIn
-			if c, ok := unparen(x.X).(*ast.CallExpr); ok && builtinName(info, c) == "len" && vec != nil && objOf(info, c.Args[0]) == vec && isNumIn(x.Y) {
-				if x.Op == token.GTR {
-					return gPostGT
-				}
-				if x.Op == token.LSS {
-					return gPostLT
-				}
-			}
-		case *ast.CallExpr:
-			if methodIs(calleeOf(info, x), "reflect", "Value", "IsNil") {
-				return gNil
-			}
-		}
-		return 0
-	}
-	g := cfgOf(info, f.Decl.Body)
-	tr := func(n ast.Node, st int) int { return st | classify(n) }
-	var statesAtCall []int
-	forwardStates(g, 0, tr, func(n ast.Node, st int) {
-		found := false
-		ast.Inspect(n, func(m ast.Node) bool {
-			if _, isLit := m.(*ast.FuncLit); isLit {
-				return false
-			}
-			if m == ast.Node(call) {
-				found = true
-			}
-			return true
-		})
-		if found {
-			statesAtCall = append(statesAtCall, st)
-		}
-	})
-	if len(statesAtCall) == 0 {
-		r.Lost("R3", "paths to reflect.Value.Call")
-		return
-	}
-	missing := map[string]bool{}
-	for _, st := range statesAtCall {
-		if st&gKind == 0 {
-			missing["Kind() == Func test"] = true
-		}
-		if st&gNil == 0 {
-			missing["nil-func test"] = true
-		}
-		if st&gArity == 0 {
-			missing["arity test (too many arguments for a fixed signature / too few for a variadic one)"] = true
-		}
-		if st&gVariadic == 0 && st&gArity != 0 && (st&gPostGT == 0 || st&gPostLT == 0) {
-			missing["post-fill tests len(args) > NumIn and len(args) < NumIn on the fixed-arity path"] = true
-		}
-	}
-	if len(missing) == 0 {
-		r.Ok("R3", f.Name(), "every path to Call passes Kind()==Func, the nil-func test and the arity tests", w.Pos(call.Pos()), fmt.Sprintf("%d path state(s) at the call", len(statesAtCall)))
-	} else {
-		var ms []string
-		for m := range missing {
-			ms = append(ms, m)
-		}
-		for _, m := range sortedStrings(ms) {
-			r.Bad("R3", f.Name(), "path to Call without "+m, w.Pos(call.Pos()), "some path reaches reflect.Value.Call without this test: the helper is invoked with a wrong number of arguments (panic) or the surplus arguments are silently ignored")
-		}
-	}
-	// the fixed arity test sits on the non-variadic side: the if that contains it is `if !isVariadic`
-	inspectBody(f.Decl.Body, true, func(n ast.Node) bool {
-		ifs, ok := n.(*ast.IfStmt)
-		if !ok {
-			return true
-		}
-		if classify(ifs.Cond) != gArity {
-			return true
-		}
-		okSide := false
-		var child ast.Node = ifs
-		for p := w.Parent(ifs); p != nil; child, p = p, w.Parent(p) {
-			if outer, ok := p.(*ast.IfStmt); ok && child == ast.Node(outer.Body) {
-				if u, ok := unparen(outer.Cond).(*ast.UnaryExpr); ok && u.Op == token.NOT {
-					if o := objOf(info, u.X); o != nil && isVariadicFlag(info, f, o) {
-						okSide = true
-					}
-				}
-			}
-		}
-		if okSide {
-			r.Ok("R3", f.Name(), "too-many test on the whole non-variadic side", w.Pos(ifs.Pos()), "first statement under 'if !isVariadic'")
-		} else {
-			r.Bad("R3", f.Name(), "too-many test not on the whole non-variadic side", w.Pos(ifs.Pos()), "every non-variadic call must pass the too-many-arguments test")
-		}
-		return true
-	})
-}
-
-func isVariadicFlag(info *types.Info, f *FuncInfo, o types.Object) bool {
-	ok := false
-	inspectBody(f.Decl.Body, true, func(n ast.Node) bool {
-		if as, isAs := n.(*ast.AssignStmt); isAs && len(as.Lhs) == 1 && len(as.Rhs) == 1 && objOf(info, as.Lhs[0]) == o {
-			if c, isC := unparen(as.Rhs[0]).(*ast.CallExpr); isC && isTypeMethod(info, c, "IsVariadic") {
-				ok = true
-			}
-		}
-		return true
-	})
-	return ok
-}
-
-func sortedStrings(xs []string) []string {
-	out := append([]string(nil), xs...)
-	for i := range out {
-		for j := i + 1; j < len(out); j++ {
-			if out[j] < out[i] {
-				out[i], out[j] = out[j], out[i]
-			}
-		}
-	}
-	return out
-}
-
-func c12AutoSupply(r *Run, f *FuncInfo) {
-	w := r.W
-	info := f.Pkg.TypesInfo
-	node := f.Obj.Type().(*types.Signature).Params().At(0)
-	ctxF := w.compilerField("ctx")
-	recv := f.Obj.Type().(*types.Signature).Recv()
-	vec := c12ArgVector(info, f)
-	// the helper-context literal
-	n := 0
-	ast.Inspect(f.Decl.Body, func(nd ast.Node) bool {
-		cl, ok := nd.(*ast.CompositeLit)
-		if !ok || !namedIs(info.Types[cl].Type, modPath, "HelperContext") {
-			return true
-		}
-		if pc, isCall := w.Parent(cl).(*ast.CallExpr); isCall && funcIs(calleeOf(info, pc), "reflect", "TypeOf") {
-			return true // a type witness, not a value handed to a helper
-		}
-		n++
-		var okCtx, okComp, okBlock bool
-		for _, e := range cl.Elts {
-			kv, ok := e.(*ast.KeyValueExpr)
-			if !ok {
-				continue
-			}
-			k, _ := kv.Key.(*ast.Ident)
-			if k == nil {
-				continue
-			}
-			fld, _ := info.Uses[k].(*types.Var)
-			if fld == nil {
-				continue
-			}
-			switch {
-			case fld.Embedded():
-				if _, vf := fieldOf(info, kv.Value); vf == ctxF {
-					okCtx = true
-				}
-			case namedIs(fld.Type(), astPath, "BlockStatement"):
-				if bx, vf := fieldOf(info, kv.Value); vf != nil && vf.Name() == "Block" && objOf(info, bx) == node {
-					okBlock = true
-				}
-			default:
-				if objOf(info, kv.Value) == recv {
-					okComp = true
-				}
-			}
-		}
-		if okCtx && okComp && okBlock {
-			r.Ok("R5", f.Name(), "helper context {current scope, evaluator, node.Block}", w.Pos(cl.Pos()), "the block of the call reaches the helper")
-		} else {
-			r.Bad("R5", f.Name(), "helper context literal "+short(w.Fset, cl), w.Pos(cl.Pos()), "the automatic helper context must carry the evaluator's current scope, the evaluator and the call's block")
-		}
-		return true
-	})
-	if n == 0 {
-		r.Bad("R5", f.Name(), "no helper context is built", w.Pos(f.Decl.Pos()), "a trailing helper-context parameter is not supplied")
-	}
-	// auto supply only when len(args) < NumIn: the calls of the supplying closure sit under that test
-	okUnder := false
-	nCalls := 0
-	inspectBody(f.Decl.Body, true, func(nd ast.Node) bool {
-		c, ok := nd.(*ast.CallExpr)
-		if !ok {
-			return true
-		}
-		id, ok := unparen(c.Fun).(*ast.Ident)
-		if !ok {
-			return true
-		}
-		v, ok := info.Uses[id].(*types.Var)
-		if !ok {
-			return true
-		}
-		if _, isSig := v.Type().Underlying().(*types.Signature); !isSig || v.IsField() {
-			return true
-		}
-		// a local closure that appends to the argument vector
-		nCalls++
-		under := false
-		for p := w.Parent(c); p != nil; p = w.Parent(p) {
-			if ifs, ok := p.(*ast.IfStmt); ok {
-				if be, ok := unparen(ifs.Cond).(*ast.BinaryExpr); ok && be.Op == token.LSS {
-					if lc, ok := unparen(be.X).(*ast.CallExpr); ok && builtinName(info, lc) == "len" && vec != nil && objOf(info, lc.Args[0]) == vec {
-						under = true
-					}
-				}
-			}
-		}
-		if under {
-			okUnder = true
-		} else {
-			r.Bad("R5", f.Name(), "auto supply outside 'len(args) < NumIn' "+short(w.Fset, c), w.Pos(c.Pos()), "trailing parameters may be supplied automatically only when the template omitted them")
-		}
-		return true
-	})
-	if okUnder {
-		r.Ok("R5", f.Name(), fmt.Sprintf("%d auto-supply call(s) under 'len(args) < NumIn'", nCalls), w.Pos(f.Decl.Pos()), "only when arguments are missing")
-	}
-	// the options map is a fresh empty map literal
-	okMap := false
-	ast.Inspect(f.Decl.Body, func(nd ast.Node) bool {
-		c, ok := nd.(*ast.CallExpr)
-		if !ok || !funcIs(calleeOf(info, c), "reflect", "ValueOf") || len(c.Args) != 1 {
-			return true
-		}
-		if cl, ok := unparen(c.Args[0]).(*ast.CompositeLit); ok && len(cl.Elts) == 0 && isMapStringIface(info.Types[cl].Type) {
-			if as, ok := w.Parent(w.Parent(c)).(*ast.AssignStmt); ok && vec != nil && objOf(info, as.Lhs[0]) == vec {
-				okMap = true
-			}
-		}
-		return true
-	})
-	if okMap {
-		r.Ok("R5", f.Name(), "options map is a fresh empty map", w.Pos(f.Decl.Pos()), "reflect.ValueOf(map[string]interface{}{})")
-	} else {
-		r.Bad("R5", f.Name(), "options map", w.Pos(f.Decl.Pos()), "an omitted trailing options map must be supplied as a fresh, empty, non-nil map")
-	}
-}
-
-func c12Results(r *Run, f *FuncInfo) {
-	w := r.W
-	info := f.Pkg.TypesInfo
-	// res := rv.Call(args); uses of res[0] under `if len(res) > 0`
-	var res types.Object
-	inspectBody(f.Decl.Body, true, func(n ast.Node) bool {
-		if as, ok := n.(*ast.AssignStmt); ok && len(as.Lhs) == 1 && len(as.Rhs) == 1 {
-			if c, ok := unparen(as.Rhs[0]).(*ast.CallExpr); ok && methodIs(calleeOf(info, c), "reflect", "Value", "Call") {
-				res = objOf(info, as.Lhs[0])
-			}
-		}
-		return true
-	})
-	if res == nil {
-		r.Lost("R6", "result of reflect.Value.Call")
-		return
-	}
-	nUse, okAll := 0, true
-	ast.Inspect(f.Decl.Body, func(n ast.Node) bool {
-		ix, ok := n.(*ast.IndexExpr)
-		if !ok || objOf(info, ix.X) != res {
-			return true
-		}
-		nUse++
-		guard := false
-		var child ast.Node = ix
-		for p := w.Parent(ix); p != nil; child, p = p, w.Parent(p) {
-			if ifs, ok := p.(*ast.IfStmt); ok && (child == ast.Node(ifs.Body) || child == ast.Node(ifs.Init) || child == ast.Node(ifs.Cond)) {
-				for q := ast.Node(ifs); q != nil; q = w.Parent(q) {
-					if outer, ok := q.(*ast.IfStmt); ok {
-						if be, ok := unparen(outer.Cond).(*ast.BinaryExpr); ok && be.Op == token.GTR {
-							if lc, ok := unparen(be.X).(*ast.CallExpr); ok && builtinName(info, lc) == "len" && objOf(info, lc.Args[0]) == res {
-								guard = true
-							}
-						}
-					}
-				}
-			}
-		}
-		if !guard {
-			okAll = false
-		}
-		return true
-	})
-	// the value returned is res[0].Interface()
-	okVal := false
-	for _, ret := range returnsIn(f.Decl.Body) {
-		if len(ret.Results) != 2 || !isNilIdent(info, ret.Results[1]) {
-			continue
-		}
-		if c, ok := unparen(ret.Results[0]).(*ast.CallExpr); ok && methodIs(calleeOf(info, c), "reflect", "Value", "Interface") {
-			if ix, ok := unparen(unparen(c.Fun).(*ast.SelectorExpr).X).(*ast.IndexExpr); ok && objOf(info, ix.X) == res {
-				if v, ok := constInt(info, ix.Index); ok && v == 0 {
-					okVal = true
-				}
-			}
-		}
-	}
-	if okAll && okVal && nUse > 0 {
-		r.Ok("R6", f.Name(), "value = res[0].Interface() under len(res) > 0", w.Pos(f.Decl.Pos()), fmt.Sprintf("%d indexed use(s) of the results, all guarded", nUse))
-	} else {
-		r.Bad("R6", f.Name(), "use of the results", w.Pos(f.Decl.Pos()), "the call's value must be the FIRST result, and the results may be indexed only when there are any")
-	}
-	_ = strings.TrimSpace
 }
